@@ -24,6 +24,9 @@ fn main() {
         "C14child" => engines::c14::child_main(),
         "C23" => engines::c23::main(&args),
         "C23child" => engines::c23::child_main(),
+        "C24" => engines::c24::main(&args),
+        "C24child" => engines::c24::child_main(),
+        "C24taskchild" => engines::c24::task_child_main(),
         "C20" => engines::c20::main(&args),
         "C20child" => engines::c20::child_main(),
         other => {
